@@ -136,18 +136,40 @@ Definition known_F1c : list row :=
     ROpt "authenticators" "jwt" "assertions.<any>";
     ROpt "authenticators" "oauth2_introspection" "assertions.<any>" ].
 
-(** found when the tables got value classes (audit): emptiness of lists/maps —
-    the remote authorizer's [expressions] may not be empty for the schema
-    (minItems 1) but may for the loader; the header/cookie finalizers' maps may not
-    be empty for the loader (gt=0) but may for the schema *)
+(** found when the tables got value classes (audit): emptiness of lists/maps.
+    Group d (repaired by cc49e3a): the header/cookie finalizers' maps may not be
+    empty for the loader (gt=0) but could for the schema.  Group e (open): the
+    remote authorizer's [expressions] may not be empty for the schema (minItems 1)
+    but may for the loader. *)
 Definition known_F1d : list row :=
-  [ ROpt "authorizers" "remote" "expressions";
-    ROpt "finalizers" "cookie" "cookies";
+  [ ROpt "finalizers" "cookie" "cookies";
     ROpt "finalizers" "header" "headers" ].
 
-Definition fixed_F1d : bool := false.
+Definition known_F1e : list row :=
+  [ ROpt "authorizers" "remote" "expressions" ].
 
-Definition known_F1 : list row := known_F1a ++ known_F1b ++ known_F1c ++ known_F1d.
+(** group f (open, names of the non-mechanism sections against the koanf tags of the
+    Configuration struct): the Mechanism struct carries an `if` that the schema does
+    not know (and that the loader rejects later anyway, see the notes); the
+    ServiceConfig struct shared by the three services is wider than what the schema
+    allows per service; the schema's `version` has no field *)
+Definition known_F1f : list row :=
+  [ ROpt "section" "mechanisms" "authenticators[].if";
+    ROpt "section" "mechanisms" "authorizers[].if";
+    ROpt "section" "mechanisms" "contextualizers[].if";
+    ROpt "section" "mechanisms" "error_handlers[].if";
+    ROpt "section" "mechanisms" "finalizers[].if";
+    ROpt "section" "serve" "decision.connections_limit";
+    ROpt "section" "serve" "decision.cors";
+    ROpt "section" "serve" "management.connections_limit";
+    ROpt "section" "serve" "management.respond";
+    RType "section" "version" ].
+
+Definition fixed_F1d : bool := true.
+Definition fixed_F1e : bool := false.
+Definition fixed_F1f : bool := false.
+
+Definition known_F1 : list row := known_F1a ++ known_F1b ++ known_F1c ++ known_F1d ++ known_F1e ++ known_F1f.
 
 (** flipped by hand when the repair of group c is applied to /repo *)
 Definition fixed_F1c : bool := true.
@@ -155,7 +177,8 @@ Definition fixed_F1c : bool := true.
 (** [fa]/[fb]: the repair of the group is in the tree, its rows are no longer excused *)
 Definition guard_F1 (fa fb : bool) (r : row) : bool :=
   existsb (row_eqb r) ((if fa then [] else known_F1a) ++ (if fb then [] else known_F1b) ++
-                       (if fixed_F1c then [] else known_F1c) ++ (if fixed_F1d then [] else known_F1d)).
+                       (if fixed_F1c then [] else known_F1c) ++ (if fixed_F1d then [] else known_F1d) ++
+                       (if fixed_F1e then [] else known_F1e) ++ (if fixed_F1f then [] else known_F1f)).
 
 (** flipped by hand when a repair is applied to /repo *)
 Definition fixed_F1a : bool := true.
@@ -301,3 +324,7 @@ Definition erase_classes (t : table) : table :=
   map (fun m => {| m_kind := m_kind m; m_type := m_type m; m_has_config := m_has_config m; m_cfg_req := m_cfg_req m;
                    m_opts := map (fun o => {| o_name := o_name o; o_req := o_req o; o_constr := erase_constr (o_constr o) |})
                                  (m_opts m) |}) t.
+
+(** the rows about pipeline mechanisms (the other rows, kind "section", compare only names of the
+    non-mechanism sections with the koanf tags of the Configuration struct) *)
+Definition mech_only (t : table) : table := filter (fun m => negb (String.eqb (m_kind m) "section")) t.
